@@ -75,6 +75,22 @@ def _has_return(stmts):
     return any(isinstance(s, ast.Return) or _contains(s, ast.Return) for s in stmts)
 
 
+def _to_expr(stmts):
+    if not stmts:
+        raise NotInlinable("falls off the end")
+    s = stmts[0]
+    if isinstance(s, ast.Return):
+        if s.value is None:
+            raise NotInlinable("bare return")
+        return s.value
+    if isinstance(s, ast.If):
+        if _always_returns(s.body):
+            return ast.IfExp(test=s.test, body=_to_expr(s.body), orelse=_to_expr(list(s.orelse) + list(stmts[1:])))
+        if s.orelse and _always_returns(s.orelse):
+            return ast.IfExp(test=s.test, body=_to_expr(list(s.body) + list(stmts[1:])), orelse=_to_expr(s.orelse))
+    raise NotInlinable("not a chain of if-returns")
+
+
 class Helper:
     """An inlinable helper."""
 
@@ -102,6 +118,12 @@ class Helper:
             if d is not None:
                 self.defaults[p.arg] = d
         self.expr = self.body[0].value if len(self.body) == 1 and isinstance(self.body[0], ast.Return) and self.body[0].value is not None else None
+        if self.expr is None:
+            # `if c: return A` ... `return B` is the expression `A if c else B`
+            try:
+                self.expr = _to_expr(self.body)
+            except NotInlinable:
+                self.expr = None
         # returns inside loops / try / with cannot be turned into assignments
         for n in ast.walk(node):
             if isinstance(n, (ast.For, ast.While, ast.Try, ast.With, ast.AsyncFor, ast.AsyncWith)) and _contains(n, ast.Return):
